@@ -51,9 +51,9 @@ re-run. `seeded/orig_D*` are the reverse patches of the eleven `fix:` commits.
 invasive: extracted helpers, loops turned into iterator chains, `match` turned into `if` chains; `G*` aimed at exactly the
 functions and idioms the later extensions reach: `Display for NodeId` with `{:02x}`, `CombinedKey::enr_to_public` as a
 `match` or with hand-written closures, the socket getters with `?`/`match`/`zip`, `set_socket`, `from_str`; `I*` likewise at
-`serde_hex_prfx::deserialize`, `Builder::add_public_key`/`add_value`, `Debug for NodeId`, `Deserialize for Enr`; `H*`, eight
+`serde_hex_prfx::deserialize`, `Builder::add_public_key`/`add_value`, `Debug for NodeId`, `Deserialize for Enr`; `H*` and `J*`, ten
 written by me, cover edit kinds the others did not: reworded error texts, equivalent comparisons and overflow tests, no-op
-statements, attributes) (tests pass,
+statements, attributes, independent statements in another order) (tests pass,
 rationale in the `.txt` next to each patch). `tools/run_seeded.py <patch>` applies one change (to /repo, or with
 `VP_SEED_SCRATCH=1` to a throw-away copy), runs the 17 registered quick checks and undoes it; `tools/collect_round.py`
 writes the `meta.json` files and the tables below (last round, committed tree); `tools/write_design_116.py` writes this section.
@@ -148,6 +148,10 @@ miss or alarm, or a recurring family; every batch was re-run afterwards):
   `to_base64` was turned into an *arbitrary* string by N6's fall-back for error texts, and the postcondition then failed.
   N6 now models positional `{}` holes, and applies the arbitrary-string fall-back only in error position (`Err(..)`,
   `map_err`, `ok_or`, `ok_or_else`, `expect`); elsewhere an unmodelled `format!` makes the function UNDECIDED.
+* a reordering that is **not** behaviour-preserving although it looks it: moving `set_socket`'s public-key insert in front of the
+  address inserts is reported (`C05.set_socket.rekey`, `C08.set_socket.effect`). For the built-in key types nothing changes,
+  but the properties speak of every key type: a scheme whose entry name is one of `ip`, `ip6`, `tcp`, .. would have its key
+  overwritten -- the same mechanism as defect D5 in `remove_insert`. It is not in `seeded/harmless/`.
 * the campaign itself runs six checks at a time: pruning of the result cache deleted an entry another run was about to read
   (one run ended with exit 2 "internal error of the checker") -> entries younger than two hours are never pruned.
 
